@@ -368,11 +368,13 @@ func (o *Obligation) Solve(timeoutS int) {
 		o.Result = raceSolve(text, 2, []string{"z3-new"})
 		return
 	}
-	first := min(3, timeoutS)
+	var r *SolveResult
 	if o.quickOnly {
-		first = min(6, timeoutS)
+		// one part of a failed batch of speculative frames: all solvers at once, short budget
+		r = raceSolve(text, min(5, timeoutS), nil)
+	} else {
+		r = raceSolve(text, min(3, timeoutS), []string{"z3-new"})
 	}
-	r := raceSolve(text, first, []string{"z3-new"})
 	if r.Status != "sat" && r.Status != "unsat" && !o.quickOnly {
 		r2 := raceSolve(text, timeoutS, nil)
 		r2.Ms += r.Ms
